@@ -230,6 +230,56 @@ def csoHandler (n1 n2 mode : String) : Option Handler :=
               | v => if v.startsWith "skip" then v else "fail orig1: " ++ v }
   | _, _ => none
 
+
+/-! ### ConvexPolygon feature ids (2-D) -/
+
+def pofeatid2 : P (Char × Nat × Option (V2 Float)) := do
+  let t ← tok
+  match t.toList with
+  | c :: rest =>
+    match (String.ofList rest).toNat? with
+    | none => failure
+    | some i =>
+      let s ← get
+      match s with
+      | ["none"] => pure (c, i, none)
+      | _ => do let v ← po2; pend; pure (c, i, some v)
+  | [] => failure
+
+/-- counter-clockwise strictly convex polygon `pts` (in the plane `z = 0`), unit direction `D` -/
+def polygonFeatIdOracle (pts : List (V3 Rat)) (D : V3 Rat) (o : Char × Nat × Option (V2 Float)) : String :=
+  let n := pts.length
+  let ext := extOf pts; let sl := tol * (1 + ext)
+  let cross := fun (a b c : V3 Rat) => (b.x - a.x) * (c.y - a.y) - (b.y - a.y) * (c.x - a.x)
+  let ccw := (List.range n).all fun i =>
+    cross (pts.getD i zero3) (pts.getD ((i + 1) % n) zero3) (pts.getD ((i + 2) % n) zero3) > 0
+  if n < 3 || !ccw then "skip not-strictly-ccw-convex" else
+  let cosD : Rat := 4502913707333573 / 4503599627370496
+  let Dn := norm3 D
+  let enormal := fun (i : Nat) => let t := (pts.getD ((i + 1) % n) zero3).sub (pts.getD i zero3); (⟨t.y, -t.x, 0⟩ : V3 Rat)
+  let cosOf := fun (i : Nat) => let N := enormal i; N.dot D / (norm3 N * Dn)
+  let (kind, id, nrm) := o
+  match nrm with
+  | none => "fail feature-normal-missing"
+  | some nf =>
+    if !finite2 nf then "fail nonfinite-output" else
+    let N := up2 nf
+    if rabs (N.normSq - 1) > 1 / 10 ^ 9 then "fail feature-normal-not-unit" else
+    match kind with
+    | 'f' =>
+      if id ≥ n then "fail face-id-out-of-range" else
+      if !(cosOf id ≥ cosD - tol) then "fail face-not-within-one-degree-of-dir" else
+      let E := enormal id
+      if (N.sub (E.smul (1 / norm3 E))).normSq > sl * sl then "fail face-normal-is-not-the-normal-of-that-edge" else "pass"
+    | 'v' =>
+      match pts[id]? with
+      | none => "fail vertex-id-out-of-range"
+      | some P =>
+        if !leS (hOf pts D) (D.dot P) (l1n3 D * ext) then "fail vertex-feature-is-not-a-support-vertex" else
+        if (List.range n).any (fun i => cosOf i > cosD + tol) then "fail a-face-is-within-one-degree-of-dir-but-a-vertex-was-returned" else
+        if !supportingAt pts N P sl then "fail vertex-normal-outside-the-normal-cone" else "pass"
+    | _ => "fail unknown-feature-kind"
+
 def polyHandler (fn : String) : Option Handler :=
   match fn with
   | "poly_sincos" => some {
@@ -247,6 +297,23 @@ def polyHandler (fn : String) : Option Handler :=
           | some p => match polySupportFeature p d with | some f => ffeat3 f | none => "panic")) a
       oracle := polyOracleWrap pofeat3 fun pts tris D f =>
         if !f.verts.all finite3 then "fail nonfinite-output" else polyFeatOracle pts tris D f }
+  | "polygon_featid" => some {
+      model := fun a => run (do
+        let pts ← ppts2; let d ← pv2; pend
+        pure (match polygonFeatureId pts d with
+          | none => "panic"
+          | some f =>
+            match polygonFeatureNormal pts f with
+            | none => "panic"
+            | some none => s!"{fid f} none"
+            | some (some n) => s!"{fid f} {fv2 n}")) a
+      oracle := fun a o => match run (do let pts ← ppts2; let d ← pv2; pend; pure (pts, d)) a with
+        | none => "skip bad-args"
+        | some (pts, d) =>
+          if !(pts.all finite2 && finite2 d) then "skip nonfinite-input" else
+          match dirVerdict (up (q2 d)) true with
+          | some v => v
+          | none => withOut pofeatid2 o fun x => polygonFeatIdOracle (pts.map up2) (up (q2 d)) x }
   | "polyhedron_featid" => some {
       model := fun a => run (do
         let (pts, tris, d) ← polyArgs
